@@ -32,6 +32,32 @@ Fixpoint hsim (tab : list (Z * cls)) (validtab : list Z) (s : rstate) (ops : lis
       ((code_of o, m_rules (snd s2)) :: obs, reached && ok)
   end.
 
+(* deliveries with a fault KIND: 0 = none, 1 = the injected loader fault fired (the rule manager's load
+   returned an error), 2 = the updater itself panicked before touching the rule manager (a custom
+   PropertyUpdater wrapped around the module's; the panic is recovered inside Handle) *)
+Definition panic_load (l : list (option Z)) (m : rmgr) : rmgr * lres := (m, LPanic).
+Definition panic_clear (m : rmgr) : rmgr * lres := (m, LPanic).
+
+Fixpoint hsimk (tab : list (Z * cls)) (validtab : list Z) (s : rstate) (ops : list (Z * Z))
+  : list (Z * list Z) * bool :=
+  match ops with
+  | [] => ([], true)
+  | (pid, k) :: rest =>
+      let s1 := set_fault s (k =? 1) in
+      let '(s2, o) := if k =? 2
+                      then handle (rconvert tab) rpeq (rtyped false) panic_load panic_clear s1 pid
+                      else rhandle tab validtab false s1 pid in
+      (* a fault can only have fired if the handler reached the updater / the loader *)
+      let reached :=
+        if k =? 1 then m_calls (snd s2) =? m_calls (snd s1) + 1
+        else if k =? 2 then
+          match snd (handle_body (rconvert tab) rpeq (rtyped false) panic_load panic_clear s1 pid) with
+          | Panicked => true | _ => false end
+        else true in
+      let '(obs, ok) := hsimk tab validtab s2 rest in
+      ((code_of o, m_rules (snd s2)) :: obs, reached && ok)
+  end.
+
 Fixpoint obs_eqb (a b : list (Z * list Z)) : bool :=
   match a, b with
   | [], [] => true
@@ -173,12 +199,18 @@ Inductive case :=
     (* one payload given to the real parser of module `kind`; enc_of = Some l claims that the
        payload is the model encoder's output for l *)
 | SCase (id : Z) (kind : Z) (go_schema : schema)
-    (* json tags and field types of the Go wire struct, read by reflection (kind 5 = SpecificValue) *).
+    (* json tags and field types of the Go wire struct, read by reflection (kind 5 = SpecificValue) *)
+| PCase (id : Z) (parser : Z) (validtab : list Z) (tab : list (Z * cls))
+        (ops : list (Z * Z)) (observed : list (Z * list Z))
+    (* deliveries with fault kinds (hsimk): loader errors and updater panics, re-deliveries after them *).
 
 Definition case_ok (c : case) : bool :=
   match c with
   | HCase _ _ validtab tab ops observed =>
       let '(obs, ok) := hsim tab validtab rinit ops in
+      ok && obs_eqb obs observed
+  | PCase _ _ validtab tab ops observed =>
+      let '(obs, ok) := hsimk tab validtab rinit ops in
       ok && obs_eqb obs observed
   | FCase _ validtab tab c0 ops o0 observed =>
       let tab' := (-1, KNil) :: tab in
@@ -200,6 +232,7 @@ Definition case_id (c : case) : Z :=
   match c with
   | HCase id _ _ _ _ _ => id | FCase id _ _ _ _ _ _ => id
   | WCase id _ _ _ _ _ _ _ => id | SCase id _ _ => id
+  | PCase id _ _ _ _ _ => id
   end.
 
 Definition mismatches (cs : list case) : list Z :=
